@@ -692,7 +692,8 @@ def reproduce(ctx, binp, bad_events, extra_env=None, history=None):
     return confirmed
 
 
-def call_histories(ctx, binp, events, ops, module, what, chunk=None, extra_env=None, settle=None, prefix=None, select=None, stateful=False):
+def call_histories(ctx, binp, events, ops, module, what, chunk=None, extra_env=None, settle=None, prefix=None, select=None, stateful=False,
+                   reject_from=None):
     """Leg G of the caller-history model (spec/CallHistory.tla): TLC writes all histories of three calls over three inputs
     x {own, keep} (CallHistoryGen); for each operation in `ops` three recorded inputs of one shape (equal field lengths,
     so that they share the caller's reused buffers) are taken from `events`, every history is replayed on the real
@@ -728,10 +729,16 @@ def call_histories(ctx, binp, events, ops, module, what, chunk=None, extra_env=N
                 acc.append(e)
             elif e["out"].get("ok") is False:
                 rej.setdefault(str(e["out"].get("err", "")), []).append(e)
+        # rejected calls of the package's OTHER operations (reject_from: (all events of the run, operations)): working memory is
+        # often shared by the operations of a package, so a rejected Decode may be followed by an Encode
+        for e in (reject_from[0] if reject_from else []):
+            if e["op"] in reject_from[1] and e["op"] != op and isinstance(e.get("out"), dict) and e["out"].get("ok") is False \
+                    and e["out"].get("panic", "") == "" and isinstance(e.get("in"), dict) and not e["in"].get("par"):
+                rej.setdefault(e["op"] + ":" + str(e["out"].get("err", "")), []).append(e)
         if len(acc) < 2 or not rej:
             continue
         kinds = sorted(rej)
-        picked = [rej[k][0] for k in kinds][:4]
+        picked = [rej[k][0] for k in kinds][:10 if reject_from else 8]
         if len(kinds) == 1:                       # no error kinds reported: a spread of the rejected inputs instead
             lst = rej[kinds[0]]
             picked = [lst[(k * (len(lst) - 1)) // 5] for k in range(6)]
@@ -740,7 +747,7 @@ def call_histories(ctx, binp, events, ops, module, what, chunk=None, extra_env=N
             for h in fgen:
                 for pos, sym in enumerate(h["calls"]):
                     src = r_ if sym == "r" else acc[0] if sym == "v1" else acc[1]
-                    items.append(dict(op=op, mode=("keep" if pos % 2 == 0 else "own"), **{"in": src["in"]}))
+                    items.append(dict(op=src["op"], mode=("keep" if pos % 2 == 0 else "own"), **{"in": src["in"]}))
                     nfail += 1
     if not items:
         ctx.skipped.append("caller histories: no three recorded inputs of one shape for %s" % ", ".join(ops))
